@@ -54,6 +54,8 @@ def h_crossover(ctx: Ctx, cfg):
         p1, p2 = _dna_ready(ctx, cfg, rep, r), _dna_ready(ctx, cfg, rep, r)
     except synth.LIBRARY_ERRORS:
         return
+    if cfg.get("mutate_first"):  # parents as later generations see them: one of them is a mutant
+        p1 = rep.mutate(r, p1)
     c1, c2 = rep.crossover(r, p1, p2)
     ctx.reached()
     if kind == "tree":
@@ -94,7 +96,7 @@ def h_mutate(ctx: Ctx, cfg):
         diff = sum(1 for a, b in zip(m.dna, p.dna) if not same_value(a, b) and a != b)
         ctx.require(diff <= 1, "mutation:more-than-one-gene-changed", lambda: {"changed": diff})
     else:
-        ctx.require(list(map(str, m.dna)) == list(map(str, p.dna)), "mutation:key-set-changed")
+        ctx.require(set(map(str, m.dna)) == set(map(str, p.dna)) and len(m.dna) == len(p.dna), "mutation:key-set-changed")
         diff = 0
         for k in p.dna:
             ctx.require(len(m.dna[k]) == len(p.dna[k]), "mutation:gene-list-length-changed", lambda: {"key": str(k)})
@@ -123,7 +125,7 @@ def h_mutate_after_crossover(ctx: Ctx, cfg):
         ctx.require(len(set(ids)) == len(ids), "crossover:child-keys-share-one-gene-list", lambda: {"keys": [str(k) for k in c.dna]})
         m = rep.mutate(r, c)
         ctx.reached()
-        ctx.require(list(map(str, m.dna)) == list(map(str, before)), "mutation:key-set-changed")
+        ctx.require(set(map(str, m.dna)) == set(map(str, before)) and len(m.dna) == len(before), "mutation:key-set-changed")
         diff = 0
         for k in before:
             ctx.require(len(m.dna[k]) == len(before[k]), "mutation:gene-list-length-changed", lambda: {"key": str(k)})
@@ -189,6 +191,9 @@ def obligations(tier: str):
         fxn = "fmin" if rep == "sge" and not T else "f0"
         add("crossover", f"{rep}_crossover", fixture=fxn, rep=rep, decider="grow", max_depth=2 if rep == "sge" else 3, gene_length=3 if T else 2, timeout=200)
         add("mutate", f"{rep}_mutate", fixture=fxn, rep=rep, decider="grow", max_depth=2 if rep == "sge" else 3, gene_length=3 if T else 2, timeout=200)
+    # crossover of a mutant (generation 2 onwards): the order in which a keyed genotype holds its keys is not part of its value
+    add("crossover", "sge_crossover_of_mutant", fixture="fmin", rep="sge", decider="grow", max_depth=2, gene_length=1, mutate_first=True, timeout=300)
+    add("crossover", "dsge_crossover_of_mutant", fixture="f8", rep="dsge", max_depth=2, mutate_first=True, timeout=300)
     # parents that have read different sets of keys (f8: none / int / bool+int)
     add("mutate_after_crossover", "dsge_mutate_after_crossover_f8", fixture="f8", grammar_fn="grammar_p0_p3" if not T else "grammar", rep="dsge", max_depth=2, timeout=200)
     add("crossover", "dsge_crossover_f8", fixture="f8", rep="dsge", max_depth=2, timeout=200)
